@@ -706,6 +706,7 @@ func (fv *FnV) builtin(st *State, ins ssa.Instruction, b *ssa.Builtin, cc *ssa.C
 		fv.assume(st, fv.wf(r, types.NewInterfaceType(nil, nil), st.now))
 		return &SV{v: Val{r, sAny}, typ: types.NewInterfaceType(nil, nil)}, nil
 	case "copy":
+		fv.sharedStorageWrite(st, cc.Args[0], pos, "copy")
 		st2 := cc.Args[0].Type().Underlying().(*types.Slice)
 		k := g.compElem(st2.Elem())
 		dst := fv.val(cc.Args[0]).v.T
